@@ -133,7 +133,7 @@ func check(c Case) error {
 		if e1 != nil || e2 != nil {
 			if canon.ErrClass(e1) == "timeout" || canon.ErrClass(e2) == "timeout" {
 				h.Discard("timeout")
-				continue
+				return nil
 			}
 			if canon.ErrClass(e1) != canon.ErrClass(e2) {
 				return fail(fmt.Sprintf("errors differ: %v vs %v", e1, e2))
